@@ -928,9 +928,42 @@ def _specialise_in(P, ci, mro, fn, anchors):
         return out
 
     def expand(st):
+        if isinstance(st, (ast.Expr, ast.Assign)):
+            # a value-returning helper fed with a generator, used as the assigned value or as an argument of a call statement whose other arguments are
+            # plain names/constants: its body is expanded in front and the call replaced by the name it returns
+            outer = st.value
+            cands = [outer] if isinstance(outer, ast.Call) and not (isinstance(st, ast.Expr) and _returns_nothing(outer)) else []
+            if isinstance(outer, ast.Call):
+                cands += [a for a in list(outer.args) + [k.value for k in outer.keywords] if isinstance(a, ast.Call)]
+                if not all(isinstance(a, (ast.Constant, ast.Name, ast.Attribute, ast.Call)) for a in list(outer.args) + [k.value for k in outer.keywords]):
+                    cands = [c for c in cands if c is outer]
+            for c_ in cands:
+                r = specialise(c_, st, want_value=True)
+                if r is not None:
+                    stmts, res = r
+                    class Put(ast.NodeTransformer):
+                        def visit_Call(self, n):
+                            if n is c_:
+                                return ast.copy_location(ast.Name(id=res, ctx=ast.Load()), n)
+                            self.generic_visit(n)
+                            return n
+                    Put().visit(st)
+                    return stmts + [st]
         if not (isinstance(st, ast.Expr) and isinstance(st.value, ast.Call)):
             return None
-        call = st.value
+        r = specialise(st.value, st, want_value=False)
+        return r[0] if r is not None else None
+
+    def _returns_nothing(call):
+        f = call.func
+        if not (isinstance(f, ast.Attribute) and isinstance(f.value, ast.Name) and f.value.id == "self"):
+            return False
+        for c in mro:
+            if c in P.classes and f.attr in P.classes[c].methods:
+                return not any(isinstance(x, ast.Return) and x.value is not None for x in ast.walk(P.classes[c].methods[f.attr]))
+        return False
+
+    def specialise(call, st, want_value):
         f = call.func
         if not (isinstance(f, ast.Attribute) and isinstance(f.value, ast.Name) and f.value.id == "self" and f.attr not in anchors):
             return None
@@ -945,6 +978,13 @@ def _specialise_in(P, ci, mro, fn, anchors):
         if h is None or h is fn or len(h.decorator_list) != len(static) or h.args.vararg or h.args.kwarg or h.args.kwonlyargs:
             return None
         hbody = [s for s in h.body if not (isinstance(s, ast.Expr) and isinstance(s.value, ast.Constant))]
+        result = None
+        if want_value:
+            # exactly one return, the last statement, of a local name
+            if not (hbody and isinstance(hbody[-1], ast.Return) and isinstance(hbody[-1].value, ast.Name)):
+                return None
+            result = hbody[-1].value.id
+            hbody = hbody[:-1]
         if any(isinstance(x, (ast.Return, ast.Yield, ast.YieldFrom, ast.Global, ast.Nonlocal)) for s in hbody for x in ast.walk(s)):
             return None
         params = [a.arg for a in h.args.args][(0 if static else 1):]
@@ -973,6 +1013,8 @@ def _specialise_in(P, ci, mro, fn, anchors):
                 return None
         if not genargs and not displays:
             return None
+        if want_value and not genargs:
+            return None
         if displays:
             # literal tables are substituted textually: each such parameter must be read once
             for pn, a in bound.items():
@@ -991,6 +1033,8 @@ def _specialise_in(P, ci, mro, fn, anchors):
         caller_names = {x.id for x in ast.walk(fn) if isinstance(x, ast.Name)} | {a.arg for a in fn.args.args}
         gen_names = {x.id for g in genargs.values() for x in ast.walk(g) if isinstance(x, ast.Name)}
         ren = {n: ast.Name(id=n + "__" + h.name.strip("_"), ctx=ast.Load()) for n in hl if n in (caller_names - gen_names) and n not in _targets_of_param_loops(body, genargs)}
+        if result is not None and result in ren:
+            result = ren[result].id
         if ren:
             class R(ast.NodeTransformer):
                 def visit_Name(self, n):
@@ -1017,7 +1061,7 @@ def _specialise_in(P, ci, mro, fn, anchors):
             _loc(s, st)
             ast.fix_missing_locations(s)
         h._specialised = True
-        return new
+        return new, result
 
     fn.body = rewrite(fn.body)
     # local generator expressions that are no longer referenced
